@@ -567,6 +567,8 @@ class ExcelCompiler:
                         walk_precedents(child_cell)
                     else:
                         # trim this cell, now we will need only its value
+                        if child_cell.value is None and child_cell.formula:
+                            self.evaluate(child_address)
                         needed_cells.add(child_address)
                         child_cell.formula = None
                         self.log.debug(f'Trimming {child_address}')
